@@ -7,6 +7,7 @@ import Decaf.Props.C05
 import Decaf.Lemmas.Formulas.MinAdd
 import Decaf.Lemmas.Formulas.MinDouble
 import Decaf.Lemmas.Formulas.OpForms
+import Decaf.Lemmas.Formulas.Ladder
 
 namespace C05.Translated
 open Model Edwards
@@ -32,6 +33,22 @@ theorem order_dvd {c : Ext} {P : E} (h : ERepr c P) (he : Point.IsEven P) :
 theorem ladders_agree {c : Ext} {p : E} (h : ERepr c p) (limbs : List ℕ) (hl : ∀ l ∈ limbs, l < 2 ^ 64) :
     Ext.eq (scalarMulCode c limbs) (c.scalarMulRef limbs) = true := by
   rw [scalarMulCode_eq]; exact C05.ladders_agree h limbs hl
+
+/-! the translated ladder itself (`scalar_mul_both` as loop skeleton + translated body; `scalar_mul` = constant-time,
+`scalar_mul_vartime` = variable-time instance) -/
+
+theorem scalar_mul_correct {c : Ext} {p : E} (h : ERepr c p) (limbs : List ℕ) (hl : ∀ l ∈ limbs, l < 2 ^ 64) :
+    ERepr (Code.minScalarMul c limbs) (Lit.ofLimbs 64 limbs • p) ∧ ERepr (Code.minScalarMulVartime c limbs) (Lit.ofLimbs 64 limbs • p) := by
+  rw [Code.minScalarMul_eq, Code.minScalarMulVartime_eq]
+  exact ⟨C05.scalarMulMin_correct h limbs hl, C05.scalarMulMin_correct h limbs hl⟩
+
+/-- the constant-time and the variable-time instance return the same quadruple, for every limb list of any length -/
+theorem ct_vartime_agree (c : Ext) (limbs : List ℕ) : Code.minScalarMul c limbs = Code.minScalarMulVartime c limbs := by
+  rw [Code.minScalarMul_eq, Code.minScalarMulVartime_eq]
+
+theorem scalar_mul_order {c : Ext} {P : E} (h : ERepr c P) (he : Point.IsEven P) :
+    Ext.eq Ext.identity (Code.minScalarMulVartime c C05.rLimbs) = true := by
+  rw [Code.minScalarMulVartime_eq]; exact (C05.order_dvd_eq h he).1
 
 /-- every `Mul` / `MulAssign` form (element × scalar and scalar × element, owned / borrowed, affine and projective, both
 backends; list regenerated from the sources on every run) denotes the module action -/
